@@ -20,7 +20,9 @@ SPEC = VERIF / "spec"
 WORK = VERIF / ".work"
 EVIDENCE = VERIF / "evidence"
 REPLAY = EVIDENCE / "replay"
-REPO = Path("/repo")
+# The registered commands always use /repo.  VERIF_REPO exists only so that harness.seedeval can evaluate a seeded
+# change in a scratch worktree (with PYTHONPATH pointing at it) while /repo itself stays untouched.
+REPO = Path(os.environ.get("VERIF_REPO") or "/repo")
 
 os.environ.setdefault("PYTHONDONTWRITEBYTECODE", "1")
 os.environ.setdefault("PYTHONHASHSEED", "0")
@@ -44,7 +46,7 @@ def assert_repo_import():
 
     path = Path(job_shop_lib.__file__).resolve()
     if REPO not in path.parents:
-        raise MachineryError(f"job_shop_lib imported from {path}, not /repo")
+        raise MachineryError(f"job_shop_lib imported from {path}, not {REPO}")
 
 
 def workdir(name: str) -> Path:
